@@ -185,3 +185,58 @@ def collect_sync(p: subprocess.Popen, outdir: Path, timeout: float = 180) -> dic
         return json.loads(rf.read_text())
     finally:
         shutil.rmtree(outdir, ignore_errors=True)
+
+
+def run_init_envs(src: str, timeout: float = 120) -> list[dict]:
+    """Import term_image in each of the 16 initialisation environments of specs/TtyInit.tla
+    (fresh process, new session, a pty of ours as the only terminal around)."""
+    import itertools
+
+    outdir = VERIF / "out" / "c14" / ("init-" + uuid.uuid4().hex[:10])
+    outdir.mkdir(parents=True, exist_ok=True)
+    ptys = []
+    procs = []
+    try:
+        env = dict(os.environ, PYTHONPATH=f"{src}:{VERIF}", PYTHONHASHSEED="0")
+        for i, (o, n, e, c) in enumerate(itertools.product([False, True], repeat=4)):
+            master, slave = os.openpty()  # a pty can be the controlling terminal of one session only
+            ptys += [master, slave]
+            job = dict(src=src, slave=os.ttyname(slave), out=o, inp=n, err=e, ctty=c, result_file=str(outdir / f"r{i}.json"))
+            (outdir / f"j{i}.json").write_text(json.dumps(job))
+            p = subprocess.Popen(
+                [sys.executable, "-m", "harness.c14_init_worker", str(outdir / f"j{i}.json")],
+                cwd=VERIF, env=env, stdin=subprocess.DEVNULL, stdout=subprocess.DEVNULL,
+                stderr=open(outdir / f"e{i}.txt", "w"), start_new_session=True,
+            )
+            with _LLOCK:
+                _LAUNCHED.append((p, outdir))
+            procs.append((i, p, job))
+        out = []
+        for i, p, job in procs:
+            try:
+                p.wait(timeout=timeout)
+            except subprocess.TimeoutExpired:
+                raise MachineryError(f"TtyInit probe {job} timed out")
+            rf = outdir / f"r{i}.json"
+            if p.returncode != 0 or not rf.exists():
+                raise MachineryError(f"TtyInit probe {job} failed (rc={p.returncode}): {(outdir / f'e{i}.txt').read_text()[-1500:]}")
+            r = json.loads(rf.read_text())
+            if r["has_ctty"] != r["ctty"]:
+                raise MachineryError(f"TtyInit probe could not arrange the environment {job}: has_ctty={r['has_ctty']}")
+            out.append(r)
+        return out
+    finally:
+        for _, p, _ in procs:
+            try:
+                os.killpg(p.pid, signal.SIGKILL)
+            except (ProcessLookupError, PermissionError):
+                pass
+            try:
+                p.wait(timeout=5)
+            except Exception:
+                pass
+        with _LLOCK:
+            _LAUNCHED[:] = [x for x in _LAUNCHED if x[1] != outdir]
+        for fd in ptys:
+            os.close(fd)
+        shutil.rmtree(outdir, ignore_errors=True)
